@@ -1,0 +1,33 @@
+//go:build verif
+
+package mount
+
+// Contracts for gocv (see /verif/DESIGN.md). Comment-only; compiled only with
+// the build tag "verif". Model M (mount system calls) is in /verif/spec/container_M.contracts.
+
+//@ func pkg/mount.ensureMountTargetExists
+//@   trusted "creates the mount point (mkdir -p / mknod); file-system effects only"
+//@   pure
+
+// C05: a configured mount that succeeds was issued with exactly its own source, target, type, flags
+// and data; a read-only bind mount is then remounted on the same target with at least its own flags
+// plus MS_REMOUNT (the bind alone does not make it read-only).
+//@ func pkg/mount.(*Mount).Mount props C05
+//@   arith bv
+//@   requires m != nil && m.Flags & 32 == 0
+//@   requires 0 <= M.nm && M.nm < 4294967296 && 0 <= M.nrm && M.nrm < 4294967296
+//@   assigns M.nm, M.m_src, M.m_tgt, M.m_type, M.m_flags, M.m_data, M.nrm, M.rm_tgt, M.rm_flags, M.root_ro
+//@   ensures result == nil ==> M.nm == old(M.nm) + 1 && M.m_src == m.Source && M.m_tgt == m.Target && M.m_type == m.FsType && M.m_flags == m.Flags && M.m_data == m.Data
+//@   ensures result == nil && m.Flags & 4097 == 4097 ==> M.nrm == old(M.nrm) + 1 && M.rm_tgt == m.Target && M.rm_flags & (m.Flags | 32) == (m.Flags | 32)
+//@   ensures result == nil && m.Flags & 4097 != 4097 ==> M.nrm == old(M.nrm) && M.root_ro == old(M.root_ro)
+//@   ensures result != nil ==> M.nrm == old(M.nrm)
+//@   ensures M.nm >= old(M.nm)
+
+//@ func pkg/mount.(Mount).IsBindMount props C05
+//@   arith bv
+//@   assigns nothing
+//@   ensures result == (m.Flags & 4096 == 4096)
+//@ func pkg/mount.(Mount).IsReadOnly props C05
+//@   arith bv
+//@   assigns nothing
+//@   ensures result == (m.Flags & 1 == 1)
